@@ -76,6 +76,34 @@ def check_constructed(aname, bname, tA, tB, alpha, scale, acc):
                       detail='%d reported in total, %d near the constructed crossing' % (len(r[1]), len(hits)))
 
 
+def check_circles(R, bscale, tA, tB, alpha, acc):
+    """two circular, unrotated arcs with very different radii crossing transversally"""
+    A = Arc(0j, complex(R, R), 0, 0, 1, complex(40.0, 0.0))
+    B = isect.place('A_circle_small_ccw', tB, A, tA, alpha, bscale)
+    case = {'what': 'circles', 'R': R, 'bscale': bscale, 'tA': tA, 'tB': tB, 'alpha': alpha}
+    if not (isect.is_circ_unrot(A) and isect.is_circ_unrot(B)):
+        acc.filt('not_circular_unrotated')
+        return
+    if abs(A.point(tA) - B.point(tB)) > 1e-9 * 40:
+        acc.filt('construction_inexact')
+        return
+    if isect.other_approach_near(A, B, tA, tB):
+        acc.filt('second_approach_in_window')
+        return
+    ratio = R / (2.0 * bscale)
+    acc.case(case, cls='circles/ratio_%s' % ('le1e3' if ratio <= 1e3 else 'gt1e3'))
+    for order, X, Y, tx, ty in (('AB', A, B, tA, tB), ('BA', B, A, tB, tA)):
+        r = outcome(lambda: X.intersect(Y))
+        sig = {'pair': 'AA', 'family': 'circles', 'radius_ratio': 'le1e3' if ratio <= 1e3 else 'gt1e3'}
+        if r[0] != 'ok':
+            acc.violation('intersect_raises', dict(sig, exc=r[1]), dict(case, order=order), observed=r)
+            continue
+        hits = [(t1, t2) for (t1, t2) in r[1] if abs(t1 - tx) <= 1e-4 and abs(t2 - ty) <= 1e-4]
+        if len(hits) != 1:
+            acc.violation('crossing_missed' if not hits else 'crossing_reported_more_than_once', sig, dict(case, order=order),
+                          observed=[list(map(float, h)) for h in r[1]][:8], expected='one pair within 1e-4 of (%r, %r)' % (tx, ty))
+
+
 def lattice_lines(seg, n):
     xs = [complex(p).real for p in seg.bpoints()]
     ys = [complex(p).imag for p in seg.bpoints()]
@@ -172,6 +200,7 @@ def shards(tier, seed):
     bez = [n for n in list(AB.LINES) + list(AB.QUADS) + list(AB.CUBICS)]
     out += [{'what': 'exact', 'B': b, 'rot': r} for b in bez for r in (0, 37)]
     out.append({'what': 'paths'})
+    out.append({'what': 'circles'})
     return out
 
 
@@ -182,6 +211,11 @@ def run_shard(desc, tier, seed):
         for sc in tp['scales']:
             for tA, tB, al in itertools.product(tp['tA'], tp['tB'], tp['alpha']):
                 check_constructed(desc['A'], desc['B'], tA, tB, al, sc, acc)
+    elif desc['what'] == 'circles':
+        for R in (1e2, 5e3, 5e4):   # beyond ~1e5 the two-circle formula h = sqrt(r0^2 - a^2) itself cancels
+            for bs in (0.25, 1.0):
+                for tA, tB, al in itertools.product((0.3, 0.6), (0.3, 0.6), (14, 60, 90)):
+                    check_circles(R, bs, tA, tB, al, acc)
     elif desc['what'] == 'exact':
         check_exact(desc['B'], desc['rot'], tp['lat'], acc)
     else:
@@ -191,7 +225,7 @@ def run_shard(desc, tier, seed):
 
 def expected_classes(tier):
     out = ['constructed/%s%s' % (a, b) for a in 'LQCA' for b in 'LQCA']
-    out += ['exact/L/count1', 'exact/Q/count1', 'exact/Q/count2', 'exact/C/count1', 'exact/C/count2', 'exact/C/count3', 'exact/C/count0']
+    out += ['exact/L/count1', 'exact/Q/count1', 'exact/Q/count2', 'exact/C/count1', 'exact/C/count2', 'exact/C/count3', 'exact/C/count0', 'circles/ratio_gt1e3', 'circles/ratio_le1e3']
     return out
 
 
@@ -204,7 +238,10 @@ def space(tier, seed):
 
 def replay(case):
     acc = core.ReplayAcc()
-    if case['what'] == 'constructed':
+    if case['what'] == 'circles':
+        check_circles(case['R'], case['bscale'], case['tA'], case['tB'], case['alpha'], acc)
+        acc.vlist = [v for v in acc.vlist if v['case'].get('order') == case.get('order')]
+    elif case['what'] == 'constructed':
         check_constructed(case['A'], case['B'], case['tA'], case['tB'], case['alpha'], case['scale'], acc)
     elif case['what'] == 'exact':
         check_exact(case['B'], case['rot'], 0, acc, only=None) if False else None
